@@ -55,6 +55,18 @@ def main(cmd, argv):
         n = int(os.environ.get("VERIF_DET_RUNS", "200"))
         seed = int(os.environ.get("VERIF_SEED", "0") or 0)
         bad = 0
+        if len(pids) > 1:
+            # one OS process per check (a check may set process-wide limits, e.g. C13's RLIMIT_AS)
+            for pid in pids:
+                p = subprocess.run([sys.executable, "-B", "-m", "vsim.cli", "selftest-determinism", pid], cwd=VERIF,
+                                   env=dict(os.environ, PYTHONHASHSEED="0", PYTHONDONTWRITEBYTECODE="1"),
+                                   capture_output=True, text=True, timeout=7200)
+                lines = [l for l in p.stdout.splitlines() if l.startswith(("determinism", "  order-dependent", "  first difference"))]
+                print("\n".join(lines) if lines else f"determinism {pid}: no result (rc={p.returncode}) {p.stderr[-300:]}")
+                sys.stdout.flush()
+                if p.returncode != 0:
+                    bad += 1
+            return 2 if bad else 0
         for pid in pids:
             t0 = time.time()
             a = digests(pid, "quick", seed, 0, n)
